@@ -190,6 +190,11 @@ CaseOutcome prop_execute(const std::string & case_json) {
                         oc.fail("summary_gap", strf("signal %d %s entry %lld (%lld finite of %lld samples): mean=%.9g min=%.9g max=%.9g, finite samples give mean=%.9g min=%.9g max=%.9g",
                                                     kv.first, dt.name, (long long) e, (long long) nfin, (long long) sdf, mean, gmn, gmx, want, mn, mx));
                     }
+                    double gsd1 = out[(size_t) e * 4 + 1];
+                    if (oc.ok && !(gsd1 >= 0 && gsd1 <= (mx - mn) + tol)) {
+                        oc.fail("summary_gap_std", strf("signal %d %s entry %lld (%lld finite of %lld samples, finite range %.9g..%.9g): std=%.9g (expected a finite value within [0, max-min])",
+                                                        kv.first, dt.name, (long long) e, (long long) nfin, (long long) sdf, mn, mx, gsd1));
+                    }
                     if (nfin < sdf) oc.tags.push_back("summary_entry_with_gap");
                 }
             }
@@ -229,6 +234,12 @@ CaseOutcome prop_execute(const std::string & case_json) {
                     if (!mean_ok || !((float) gmn == (float) mn) || !((float) gmx == (float) mx)) {
                         oc.fail("summary_gap", strf("signal %d %s level-%d entry %lld (samples %lld..%lld, %lld finite): mean=%.9g min=%.9g max=%.9g, the finite samples have min=%.9g max=%.9g",
                                                     kv.first, dt.name, L, (long long) e, (long long) (e * step), (long long) ((e + 1) * step - 1), (long long) nfin, mean, gmn, gmx, mn, mx));
+                    }
+                    // "gap samples are absent" also for the spread: an entry with finite samples has a finite std, bounded by their range
+                    double gsd = out[(size_t) e * 4 + 1];
+                    if (oc.ok && nfin >= 1 && !(gsd >= 0 && gsd <= (mx - mn) + tol)) {
+                        oc.fail("summary_gap_std", strf("signal %d %s level-%d entry %lld (samples %lld..%lld, %lld finite of %lld, finite range %.9g..%.9g): std=%.9g (expected a finite value within [0, max-min])",
+                                                        kv.first, dt.name, L, (long long) e, (long long) (e * step), (long long) ((e + 1) * step - 1), (long long) nfin, (long long) step, mn, mx, gsd));
                     }
                     if (nfin < step) with_gap = true;
                 }
